@@ -9,6 +9,7 @@ import (
 	"os"
 	"path"
 	"path/filepath"
+	"sort"
 	"strings"
 	"sync"
 	"time"
@@ -158,6 +159,10 @@ func (db *SingleBucketBackend) getBucketWithFilePrefixLocked(bucket string, pref
 		}
 	}
 
+	sort.Slice(response.CommonPrefixes, func(i, j int) bool {
+		return response.CommonPrefixes[i].Prefix < response.CommonPrefixes[j].Prefix
+	})
+
 	return response, nil
 }
 
@@ -193,6 +198,12 @@ func (db *SingleBucketBackend) getBucketWithArbitraryPrefixLocked(bucket string,
 	}); err != nil {
 		return nil, err
 	}
+
+	// Walk visits a directory's contents before its later siblings ("a/b"
+	// before "a-b"); S3 lists keys in byte order of the whole key.
+	sort.Slice(response.Contents, func(i, j int) bool {
+		return response.Contents[i].Key < response.Contents[j].Key
+	})
 
 	return response, nil
 }
